@@ -12,7 +12,8 @@ Proof. exact sorter_perm. Qed.
 Print Assumptions C09_permutation.
 
 (** ordered: every row is not-after every later row under the row comparison
-    (key expressions in the requested direction, then all columns ascending) *)
+    (key expressions in the requested direction, then all columns ascending;
+    descending for a keyless [sort desc]) *)
 Theorem C09_sorted : forall s,
   Forall (row_ok (s_keys s)) (s_rows s) ->
   StronglySorted (fun a b => sort_le s a b = true) (t_rows (s_emit s)).
@@ -96,12 +97,15 @@ Print Assumptions C09_failing_key_last.
 
 (** an aggregation that ends the query, or is followed directly by limit, is
     followed by a sort by its aggregate columns, descending; ascending with
-    _timeslice first when that is a key *)
+    the time column first when the bare column _timeslice is a key: the time
+    column is named by the header of the first such key *)
 Theorem C09_implicit_sort : forall fns keys,
   (existsb (fun ke => match snd ke with ECol h [] => str_eqb h (lit "_timeslice") | _ => false end) keys = false ->
    implicit_sort fns keys = SSort (map (fun nf => ECol (fst nf) []) fns) true) /\
   (existsb (fun ke => match snd ke with ECol h [] => str_eqb h (lit "_timeslice") | _ => false end) keys = true ->
-   implicit_sort fns keys = SSort (ECol (lit "_timeslice") [] :: map (fun nf => ECol (fst nf) []) fns) false).
+   exists ke,
+     find (fun ke => match snd ke with ECol h [] => str_eqb h (lit "_timeslice") | _ => false end) keys = Some ke /\
+     implicit_sort fns keys = SSort (ECol (fst ke) [] :: map (fun nf => ECol (fst nf) []) fns) false).
 Proof. intros; split; [apply implicit_sort_plain | apply implicit_sort_timeslice]. Qed.
 Print Assumptions C09_implicit_sort.
 
